@@ -265,3 +265,24 @@ func H_c11_disconnect() {
 	verif_no_locks_held("a dying connection leaves no client mutex held")
 	verif_witness()
 }
+
+// H_c11_race: two operator connections (each served by its own goroutine) record an event at
+// the same time - bounded scheduler, every interleaving with at most 2 voluntary switches.
+// Both events are retained, each exactly once, after the event that was there before.
+func H_c11_race() {
+	t := verifNewTeamserver(true)
+	t.EventsList = append(t.EventsList, verifMarker(1))
+	verif_par(func() { t.EventAppend(verifMarker(2)) }, func() { t.EventAppend(verifMarker(3)) })
+	verif_assert(len(t.EventsList) == 3, "two events recorded at the same time are both retained")
+	seen := map[int]int{}
+	for _, e := range t.EventsList {
+		seen[e.Body.SubEvent-1000]++
+	}
+	verif_assert(seen[1] == 1, "the event recorded before stays, once")
+	verif_assert(seen[2] == 1, "the first concurrent event is retained exactly once")
+	verif_assert(seen[3] == 1, "the second concurrent event is retained exactly once")
+	if len(t.EventsList) >= 1 {
+		verif_assert(t.EventsList[0].Body.SubEvent == 1001, "earlier events keep their place in the log")
+	}
+	verif_witness()
+}
